@@ -394,6 +394,11 @@ func makeFlag(m parse.RedirMode) int {
 	}
 }
 
+// The largest port number accepted in a redirection. The port table is a
+// slice indexed by port number, so the number has to be bounded; this is far
+// above any file descriptor limit.
+const maxFD = 1 << 20
+
 type InvalidFD struct{ FD int }
 
 func (err InvalidFD) Error() string { return fmt.Sprintf("invalid fd: %d", err.FD) }
@@ -527,6 +532,9 @@ func evalForFd(fm *Frame, op valuesOp, closeOK bool, what string) (int, error) {
 	}
 	var fd int
 	if vals.ScanToGo(value, &fd) == nil {
+		if fd < 0 || fd > maxFD {
+			return -1, fm.errorp(op, InvalidFD{FD: fd})
+		}
 		return fd, nil
 	} else if value == "-" && closeOK {
 		return -1, nil
